@@ -131,7 +131,7 @@ type flashOp struct {
 	inputMode int // 0 none, 1 urlencoded form, 2 query, 3 multipart
 	route     bool
 	status    int
-	failCode  int // consumer: after recording the messages the handler fails: 0 no, -1 plain error, else *fiber.Error code
+	failCode  int    // consumer: after recording the messages the handler fails: 0 no, -1 plain error, else *fiber.Error code
 	srvCookie string // the serialised cookie as the server put it into the response header
 	// any
 	read      bool
